@@ -34,10 +34,19 @@ def build_harness():
     os.replace(tmp, BIN)       # atomic: concurrent checks never see a half-written binary
     return BIN
 
+_created = []
+def _cleanup():
+    for d in _created: shutil.rmtree(d, ignore_errors=True)
+import atexit
+atexit.register(_cleanup)
+
 def scratch(prefix):
+    """per-run scratch directory under .work; whatever is left of it is removed when the process exits"""
     prefix = re.sub(r"[^A-Za-z0-9_.-]+", "_", prefix)[:40]
     os.makedirs(WORK, exist_ok=True)
-    return tempfile.mkdtemp(prefix=prefix + "-", dir=WORK)
+    d = tempfile.mkdtemp(prefix=prefix + "-", dir=WORK)
+    _created.append(d)
+    return d
 
 def run_tlc(mod, cfg, workers=8, coverage=False, timeout=1800, simulate=None, depth=None, seed=None,
             extra_files=None, xss="512m", deadlock=False):
